@@ -86,6 +86,13 @@ fn names(max_len: usize) -> Vec<String> {
 /// `front` may carry the suffix "+maint": the same world, but over capacity (capacity 1 per directory, three
 /// entries each), with stale debris in every .kismet_temp and the maintenance trigger about to fire, so that a
 /// call that reaches maintenance before rejecting its name does change something.
+thread_local! {
+    /// a single fault to inject into the next `run_case` (call index in its trace, the call's kind, what happens)
+    static FAULT: std::cell::Cell<Option<(u64, Kind, shim::Action)>> = const { std::cell::Cell::new(None) };
+    /// the trace of the last `run_case`
+    static LAST_TRACE: std::cell::RefCell<Vec<shim::Ev>> = const { std::cell::RefCell::new(Vec::new()) };
+}
+
 fn build_world(sc: &Scratch, front: &str) -> (StackCfg, ops::Dirs, PathBuf) {
     let maintain = front.ends_with("+maint");
     let front = front.trim_end_matches("+maint");
@@ -236,6 +243,14 @@ pub fn run_case(name: &str, opname: &str, front: &str, rep: &mut Report) -> Vec<
     let op = make_op(opname, K::new(name, 1, 2));
     let before = world::snapshot(&sc.root);
     let maintain = front.ends_with("+maint");
+    if let Some((k, kind, a)) = FAULT.with(|f| f.get()) {
+        shim::set_controller(Some(std::sync::Arc::new(crate::props::c18::FailAt {
+            faults: vec![(k, a)],
+            kinds: vec![Some(kind)],
+            n: std::sync::atomic::AtomicU64::new(0),
+            hit: std::sync::Mutex::new(vec![]),
+        })));
+    }
     let (out, trace) = run::as_participant(0, 0, || {
         if maintain {
             run::trigger_fire_next(u64::MAX);
@@ -244,6 +259,8 @@ pub fn run_case(name: &str, opname: &str, front: &str, rep: &mut Report) -> Vec<
         }
         ops::exec(&cache, &dirs, &op, &Default::default())
     });
+    shim::set_controller(None);
+    LAST_TRACE.with(|t| *t.borrow_mut() = trace.clone());
     rep.transitions += trace.len() as u64;
     let after = world::snapshot(&sc.root);
     let mut bad = Vec::new();
@@ -500,7 +517,8 @@ pub fn run(tier: Tier, shard: Shard, rep: &mut Report) {
          direct-child entry, plus a monitor on every mutating call's path; every name of length <= 2 (thorough 3) and the edge names \
          again in a world where maintenance is due (over capacity, stale debris in .kismet_temp, trigger firing): a reserved name (empty, or starting with '.', '/', '\\') is \
          rejected with InvalidInput and leaves that world unchanged too, and whatever the name, application dot-files (one of them not \
-         valid UTF-8) are neither deleted nor re-stamped by the maintenance. Plus, under concurrency (all schedules with <= 2 preemptions of a maintaining writer racing with a deleter or another \
+         valid UTF-8) are neither deleted nor re-stamped by the maintenance. Each publication step of writes under four accepted names refused in every plausible way \
+         (EXDEV, EMLINK, ...): every mutating call still lands on the key's own entry or in the cache's own structure. Plus, under concurrency (all schedules with <= 2 preemptions of a maintaining writer racing with a deleter or another \
          writer, sentinel files named like the entries one directory up): every mutating call lands inside the cache's own \
          directories. Non-trivial = accepted-by-first-byte name containing a separator, NUL, '..' or of extreme length.",
         max_len,
@@ -539,6 +557,44 @@ pub fn run(tier: Tier, shard: Shard, rep: &mut Report) {
             }
         }
     }
+    // error paths are paths too: each publication step (rename/link) of a write under an accepted name is refused in
+    // every plausible way (EXDEV, EMLINK, ...); whatever the library does about it, every mutating call still lands on
+    // the key's own entry or in the cache's own structure (never on a sibling name)
+    for name in ["a", "x.y", "valid", "a.b.c"] {
+        for op in OPS.iter().filter(|o| !matches!(**o, "get" | "touch")) {
+            for front in FRONTS.iter() {
+                no += 1;
+                if !shard.mine(no) {
+                    continue;
+                }
+                let _ = run_case(name, op, front, rep);
+                let base: Vec<shim::Ev> = LAST_TRACE.with(|t| t.borrow().clone());
+                for (k, ev) in base.iter().enumerate() {
+                    if !matches!(ev.kind, Kind::Rename | Kind::Link) {
+                        continue;
+                    }
+                    for a in crate::props::c18::plausible(ev, false) {
+                        FAULT.with(|f| f.set(Some((k as u64, ev.kind, a))));
+                        let bad = run_case(name, op, front, rep);
+                        FAULT.with(|f| f.set(None));
+                        rep.evaluations += 1;
+                        rep.states += 1;
+                        rep.traces += 1;
+                        rep.count("refused_publication_cases", 1);
+                        for (sig, msg) in bad {
+                            if sig == "stray-call" || sig == "stray-effect" {
+                                rep.violation(
+                                    format!("names:{}-under-fault", sig),
+                                    format!("{} {}({:?}) with call {} ({}) answered {:?}: {}", front, op, name, k, ev.func, a, msg.chars().take(300).collect::<String>()),
+                                    json!({"refused_publication": true}),
+                                );
+                            }
+                        }
+                    }
+                }
+            }
+        }
+    }
     rep.fact("names", json!(all.len()));
     rep.fact("max_len_exhaustive", json!(max_len));
     if shard.index == 0 {
@@ -554,6 +610,10 @@ pub fn replay(case: &Value, rep: &mut Report) {
         let progs: Vec<crate::sched::Program> = concurrent_programs().into_iter().map(|p| p.0).collect();
         let mut chk = |x: &crate::sched::Execution| concurrent_check(x);
         crate::props::e1::replay_case("C16", &progs, case, rep, &|| crate::sched::RunOpts::default(), &mut chk);
+        return;
+    }
+    if case.get("refused_publication").is_some() {
+        run(Tier::Quick, Shard { index: 0, count: 1 }, rep);
         return;
     }
     let bytes: Vec<u8> = case["name_bytes"].as_array().unwrap().iter().map(|b| b.as_u64().unwrap() as u8).collect();
